@@ -380,7 +380,18 @@ def cases():
     query = st.tuples(st.just("query"), st.integers(0, 3), st.integers(0, 3), st.integers(0, 2)).map(list)
     tick = st.tuples(st.just("tick"), st.sampled_from([1.0, 30.0, 50.0, 99.0, 100.0, 101.0, 250.0])).map(list)
     step = st.one_of(reg, reg, unreg, query, query, tick, bad)
-    return st.fixed_dictionaries({"kind": st.sampled_from(["udp", "tcp"]), "steps": st.lists(step, min_size=3, max_size=40)})
+    # constructive: two servers under one name, the older one refreshed later, a malformed request, queries around a
+    # prune / unregister - the shapes that matter should not be left to luck
+    def refresh(t):
+        a, h0, h1, p, b = t
+        return [["reg", h0, p, [a]], ["tick", 10.0], ["reg", h1, p, [a]], ["tick", 10.0], ["query", a, 0, 0], b,
+                ["reg", h0, p, [a]], ["tick", 1.0], ["query", a, 1, 1], ["tick", 95.0], ["query", a, 2, 2],
+                ["unreg", h0, p], ["query", a, 3, 0]]
+    constructed = st.tuples(st.integers(0, 3), st.integers(0, 2), st.integers(0, 2), st.integers(0, 2), bad).filter(
+        lambda t: t[1] != t[2]).map(refresh)
+    steps = st.one_of(st.lists(step, min_size=3, max_size=40),
+                      st.tuples(st.lists(step, max_size=6), constructed, st.lists(step, max_size=8)).map(lambda t: t[0] + t[1] + t[2]))
+    return st.fixed_dictionaries({"kind": st.sampled_from(["udp", "tcp"]), "steps": steps})
 
 
 def plan(tier, scale):
